@@ -2,7 +2,7 @@
 import json, random
 from . import common, projgen, projcheck, projrun, clirun
 
-PROF = projgen.profile(n_builders=(2, 3), n_apps=(2, 3), p_tasks=0.0, p_cli_builders=0.0, p_cli_apps=0.0, p_cli_select=0.15,
+PROF = projgen.profile(n_builders=(2, 3), n_apps=(2, 3), p_tasks=0.35, p_task_fail=0.0, p_cli_builders=0.0, p_cli_apps=0.0, p_cli_select=0.15,
                        p_cli_disable=0.1, p_cli_define=0.15, p_custom_build=0.03, p_download=0.03, p_app_elsewhere=0.1,
                        p_hard_missing=0.0, p_cycle=0.0)
 
@@ -35,6 +35,13 @@ def gen_scenario(seed, i):
             a["apps"] = rng.sample(apps, rng.randint(1, len(apps)))
             a["builders"] = rng.sample(builders, rng.randint(1, len(builders)))
         return a
+    defined = set()
+    for kind, m, path in projcheck.yaml_modules(p):
+        defined |= set((m.get("tasks") or {}).keys())
+    for d in p["files"]["laze-project.yml"]:
+        for c in (d.get("contexts") or []) + (d.get("builders") or []):
+            defined |= set((c.get("tasks") or {}).keys())
+    defined = sorted(defined)
     invs = []
     first = {"args": dict(base), "flags": flags(), "ninja_rc": rng.choice([0, 0, 0, 1])}
     if rng.random() < 0.4:
@@ -49,6 +56,14 @@ def gen_scenario(seed, i):
             inv["flags"]["generate_only"] = True
         elif r < 0.2:
             inv["no_ninja"] = True
+        elif 0.3 <= r < 0.55 and defined:
+            # a task run: the apps are built first (ninja without -k), whatever ninja says decides before any task is started
+            inv["task"] = rng.choice(defined)
+            inv["task_args"] = []
+            if rng.random() < 0.65:
+                inv["flags"]["multiple"] = True
+            inv["flags"]["keep_going"] = rng.choice([0, 1, 2, 3])
+            inv["ninja_rc"] = rng.choice([0, 1, 1, 2, "kill"])
         elif r < 0.3:
             inv = {"subcommand": "clean", "unused": rng.random() < 0.5, "flags": {"verbose": rng.choice([0, 1])}, "ninja_rc": rng.choice([0, 1, "kill"]), "args": {}}
         invs.append(inv)
@@ -105,6 +120,11 @@ def judge(chk, sc, steps):
             want = "N:-f build/build-global.ninja" + (" -v" if fl.get("verbose") else "") + " -t " + ("cleandead" if inv.get("unused") else "clean")
             if ninja_lines != [want]:
                 chk.fail_oracle("ninja:clean-argv", f"clean ran {ninja_lines}, expected {[want]}", {"scenario": sc})
+        elif inv.get("task"):
+            chk.count("task-run")
+            if inv.get("ninja_rc", 0) != 0 and ninja_lines and rc == 0:
+                chk.fail_oracle("ninja:rc-swallowed:task-run" + (":killed-by-signal" if inv["ninja_rc"] == "kill" else ""),
+                                f"building the apps for task {inv['task']}: ninja exits {inv['ninja_rc']} but laze exits 0", {"scenario": sc})
         elif rc in (0, 1) and "error: unknown b" not in step["stderr"]:
             generated_ok = rc == 0 or ninja_lines or inv.get("no_ninja")
             if fl.get("generate_only"):
